@@ -125,9 +125,11 @@ def _kernels():
     A(K("sign", ALL, lambda dt: lax.sign, "i"))
     A(K("div", ALL, lambda dt: lax.div, "id"))
     A(K("rem", ALL, lambda dt: lax.rem, "id"))
-    A(K("floor_divide", ALL, lambda dt: jnp.floor_divide, "id"))
-    A(K("mod", ALL, lambda dt: jnp.mod, "id0"))
-    A(K("fmod", ALL, lambda dt: jnp.fmod, "id0"))
+    # jnp / jax.nn functions are looked up AT CALL TIME: the converter patches the module attributes, a function object
+    # captured here would bypass the jax.numpy plugin and be traced into lax primitives
+    A(K("floor_divide", ALL, lambda dt: (lambda x, y: jnp.floor_divide(x, y)), "id"))
+    A(K("mod", ALL, lambda dt: (lambda x, y: jnp.mod(x, y)), "id0"))
+    A(K("fmod", ALL, lambda dt: (lambda x, y: jnp.fmod(x, y)), "id"))      # the plugin does not guard y = 0 (JAX: 0, onnxruntime: error)
     A(K("clamp", ALL, lambda dt: (lambda x, lo, hi: lax.clamp(lo, x, hi)), "iii"))
     A(K("clip", ALL, lambda dt: (lambda x, lo, hi: jnp.clip(x, lo, hi)), "iii"))
     A(K("select_n", ALL + ["bool"], lambda dt: (lambda p, x, y: lax.select_n(p, x, y)), "bii"))
@@ -159,8 +161,19 @@ def _kernels():
     for t in ("int32", "uint8", "int64"):
         A(K(f"convert_bool_{t}", ["bool"], lambda dt, t=t: (lambda x: lax.convert_element_type(x, jnp.dtype(t))), "i",
             coq="convert_of_bool", extra={"to": t}))
-    A(K("relu", ALL, lambda dt: jax.nn.relu, "i"))
-    A(K("relu6", ALL, lambda dt: jax.nn.relu6, "i"))
+    A(K("relu", ALL, lambda dt: (lambda x: jax.nn.relu(x)), "i"))
+    A(K("relu6", ALL, lambda dt: (lambda x: jax.nn.relu6(x)), "i"))
+    # the jax.numpy substitutes with their OWN integer lowering (plugins/jax/numpy/*.py), same treatment as the lax kernels
+    for nm in ("add", "maximum", "minimum", "bitwise_and", "bitwise_or", "bitwise_xor", "equal", "less", "less_equal", "greater",
+               "greater_equal"):
+        A(K("jnp_" + nm, ALL, lambda dt, nm=nm: (lambda x, y, nm=nm: getattr(jnp, nm)(x, y)), "ii"))
+    for nm in ("left_shift", "right_shift", "bitwise_left_shift", "bitwise_right_shift"):
+        A(K("jnp_" + nm, ALL, lambda dt, nm=nm: (lambda x, y, nm=nm: getattr(jnp, nm)(x, y)), "is"))
+    for nm in ("bitwise_not", "invert", "abs", "sign"):
+        A(K("jnp_" + nm, ALL, lambda dt, nm=nm: (lambda x, nm=nm: getattr(jnp, nm)(x)), "i"))
+    A(K("jnp_clip_scalar", SIGNED, lambda dt: (lambda x: jnp.clip(x, -5, 7)), "i"))
+    for y in (2, 3):
+        A(K(f"jnp_power{y}", ALL, lambda dt, y=y: (lambda x, y=y: jnp.power(x, y)), "i", extra={"y": y}))
     A(K("one_hot", ["int32", "int64", "int8", "uint8"], lambda dt: (lambda i: jax.nn.one_hot(i, 4, dtype=jnp.float32)), "idx",
         extra={"n": 4}))
     A(K("dynamic_slice", ["int32", "int64"],
@@ -416,6 +429,16 @@ def gallina_of_model(model, k, dt):
             d = same_int()
             nm = {"Neg": "o_neg", "Abs": "o_abs", "Sign": "o_sign", "BitwiseNot": "o_bitnot"}[op]
             r = (("int", d), f"({nm} {sbl(d)} {ex[0]})")
+        elif op == "Relu":
+            only()
+            d = same_int()
+            r = (("int", d), f"(o_relu {ex[0]})")
+        elif op == "Clip":
+            only()
+            if len(ins) != 3:
+                raise Unrecognised("Clip without both bounds")
+            d = same_int()
+            r = (("int", d), f"(o_clip {ex[0]} {ex[1]} {ex[2]})")
         elif op == "Mod":
             only("fmod")
             d = same_int()
@@ -546,11 +569,11 @@ _SB1 = {"o_neg": "ONeg", "o_abs": "OAbs", "o_sign": "OSign", "o_bitnot": "OBitNo
 _SB2 = {"o_add": "OAdd", "o_sub": "OSub", "o_mul": "OMul", "o_div": "ODiv", "o_pow": "OPow", "o_bitand": "OBitAnd",
         "o_bitor": "OBitOr", "o_bitxor": "OBitXor", "o_shl": "OShl", "o_shr": "OShr"}
 _P1 = {"o_not": "ONot", "o_cast_to_bool": "OCastToBool", "o_cast_float": "OCastFloat", "o_round": "ORound", "o_floor": "OFloor",
-       "o_ceil": "OCeil", "q_abs": "OAbsF", "q_sign": "OSignF", "o_identity": "OIdentity"}
+       "o_ceil": "OCeil", "q_abs": "OAbsF", "q_sign": "OSignF", "o_identity": "OIdentity", "o_relu": "ORelu"}
 _P2 = {"o_max": "OMax", "o_min": "OMin", "o_and": "OAnd", "o_or": "OOr", "o_xor": "OXor", "o_equal": "OEqual", "o_less": "OLess",
        "o_le": "OLessEq", "o_greater": "OGreater", "o_ge": "OGreaterEq", "o_equal_b": "OEqualB", "q_sub_z": "OSubF",
        "q_eqb": "OEqualF", "z_add": "OAddF", "z_mul": "OMulF"}
-_P3 = {"o_where": "OWhere", "o_where_b": "OWhereB"}
+_P3 = {"o_where": "OWhere", "o_where_b": "OWhereB", "o_clip": "OClip"}
 
 
 def _sexp(text):
@@ -618,9 +641,15 @@ def deep_of_term(term):
 
 def deep_name(k, dt):
     """the kexpr of Lift.v the export of this variant must be (None: not an elementwise kernel)"""
-    n = k.name
+    n = jnp_base(k.name, dt)
     sb = sb_lit(dt) if dt in INT_DTYPES else None
     isb = dt == "bool"
+    if n == "fmod":
+        return f"ke_rem {sb}"
+    if n == "jnp_clip_scalar":
+        return "KOp3 OClip v0 (kz (-5)) (kz 7)"
+    if n.startswith("jnp_power"):
+        return f"KOp2 (OPow {sb}) v0 (kz {k.extra['y']})"
     if n in ("add", "sub", "mul", "neg", "abs", "sign", "div", "rem", "floor_divide", "mod", "fmod", "bitand", "bitor", "bitxor",
              "bitnot", "shift_left", "shift_right_logical", "shift_right_arithmetic"):
         return f"ke_{n} {sb}"
@@ -644,12 +673,31 @@ def deep_name(k, dt):
 
 
 # ------------------------------------------------------------------------------------------------ Coq names
+JNP_BASE = {"jnp_add": "add", "jnp_maximum": "max", "jnp_minimum": "min", "jnp_bitwise_and": "bitand", "jnp_bitwise_or": "bitor",
+            "jnp_bitwise_xor": "bitxor", "jnp_bitwise_not": "bitnot", "jnp_invert": "bitnot", "jnp_left_shift": "shift_left",
+            "jnp_bitwise_left_shift": "shift_left", "jnp_abs": "abs", "jnp_sign": "sign", "jnp_equal": "eq", "jnp_less": "lt",
+            "jnp_less_equal": "le", "jnp_greater": "gt", "jnp_greater_equal": "ge"}
+
+
+def jnp_base(name, dt):
+    """the lax-level kernel whose Coq definitions a jax.numpy plugin kernel shares (its export must be the same graph)"""
+    if name in ("jnp_right_shift", "jnp_bitwise_right_shift"):      # arithmetic on signed, logical on unsigned types
+        return "shift_right_arithmetic" if dt in SIGNED else "shift_right_logical"
+    return JNP_BASE.get(name, name)
+
+
 def coq_names(k, dt):
     """(jax_<k> term, lowered_<k> term, kind of the result) at this dtype variant — the definitions of
     coq/theories/Kernels.v the real export is compared with"""
-    n = k.name
+    n = jnp_base(k.name, dt)
     sb = sb_lit(dt) if dt in INT_DTYPES else None
     isb = dt == "bool"
+    if n == "fmod":                       # the jax.numpy.fmod plugin: x - (x / y) * y, no zero guard
+        return f"jax_fmod {sb}", f"lowered_rem {sb}", "int"
+    if n == "jnp_clip_scalar":
+        return "(fun x => jax_clip x (-5) 7)", "(fun x => lowered_clip_op x (-5) 7)", "int"
+    if n.startswith("jnp_power"):
+        return (f"(fun x => jax_integer_pow {sb} x {k.extra['y']}%nat)", f"(fun x => prerepair_integer_pow {sb} x {k.extra['y']}%nat)", "int")
     if n in ("add", "sub", "mul", "neg", "abs", "sign", "div", "rem", "floor_divide", "mod", "fmod", "bitand", "bitor",
              "bitxor", "bitnot", "shift_left", "shift_right_logical"):
         return f"jax_{n} {sb}", f"lowered_{n} {sb}", "int"
@@ -1402,6 +1450,53 @@ def prog_expected(pg):
     return term[jp.outvars[0]], names
 
 
+# ------------------------------------------------------------------------------------------------ inventory of jax.numpy plugins
+# Every plugin registered under jax.numpy.* must be classified: PROVED (its integer lowering is a kernel of this check: tied
+# by tie S, proved, searched) or NOT_EXACT (explicitly outside the exact fragment, with the reason).  A plugin in neither
+# list fails an obligation (fail closed): a new jax.numpy plugin with an integer path cannot go unnoticed.
+JNP_PROVED = {"abs": "jnp_abs", "add": "jnp_add", "bitwise_and": "jnp_bitwise_and", "bitwise_left_shift": "jnp_bitwise_left_shift",
+              "bitwise_not": "jnp_bitwise_not", "bitwise_or": "jnp_bitwise_or", "bitwise_right_shift": "jnp_bitwise_right_shift",
+              "bitwise_xor": "jnp_bitwise_xor", "clip": "clip, jnp_clip_scalar", "equal": "jnp_equal", "floor_divide": "floor_divide",
+              "fmod": "fmod", "greater": "jnp_greater", "greater_equal": "jnp_greater_equal", "invert": "jnp_invert",
+              "left_shift": "jnp_left_shift", "less": "jnp_less", "less_equal": "jnp_less_equal", "maximum": "jnp_maximum",
+              "minimum": "jnp_minimum", "right_shift": "jnp_right_shift", "sign": "jnp_sign", "where": "where",
+              "pow": "jnp_power2, jnp_power3 (constant exponent)", "power": "jnp_power2, jnp_power3 (constant exponent)"}
+_FLOAT = "floating-point numerics (not exact)"
+_RED = "reduction / scan over an axis (not an elementwise kernel)"
+_MOVE = "data movement / shape / construction (no arithmetic on the elements; C03, C08 cover the structure)"
+_LIN = "linear algebra / contraction (not exact)"
+JNP_NOT_EXACT = {
+    **{n: _FLOAT for n in ("acos", "acosh", "asin", "asinh", "atan", "atan2", "atanh", "cos", "cosh", "exp", "exp2", "expm1", "log", "sin",
+                           "sinh", "sqrt", "tan", "tanh", "fabs", "copysign", "ldexp", "frexp", "spacing", "isfinite", "interp", "polyfit",
+                           "roots", "bartlett", "blackman", "hamming", "hanning", "linspace", "conj")},
+    "ceil": "float operator; integer operands are promoted to float by JAX (lax.ceil is the exact kernel)",
+    "floor": "float operator; integer operands are promoted to float by JAX (lax.floor is the exact kernel)",
+    "divide": "true division of integers yields a rounded float (Cast, Cast, Div): explored only",
+    "select": "jnp.select (list of conditions): a Where cascade, explored only",
+    **{n: _RED for n in ("all", "any", "amax", "amin", "max", "min", "argmax", "argmin", "cumprod", "cumsum", "nancumprod", "mean", "prod",
+                         "sum", "sort", "unique", "searchsorted", "digitize", "histogram", "histogram2d", "histogramdd")},
+    **{n: _MOVE for n in ("arange", "compress", "concatenate", "diag", "diagonal", "eye", "full", "moveaxis", "ones", "pad", "reshape",
+                          "shape", "size", "split", "squeeze", "stack", "take", "tile", "transpose", "trilu", "unstack", "zeros")},
+    **{n: _LIN for n in ("dot", "einsum", "matmul", "outer", "linalg.det", "linalg.inv", "linalg.norm", "linalg.solve", "linalg.tensorinv",
+                         "linalg.tensorsolve")},
+}
+
+
+def jnp_inventory(ctx, kernel_names):
+    from jax2onnx.plugins import plugin_system as ps
+    ps.import_all_plugins()
+    reg = sorted(n[len("jax.numpy."):] for n in ps.PLUGIN_REGISTRY if n.startswith("jax.numpy."))
+    unclassified = [n for n in reg if n not in JNP_PROVED and n not in JNP_NOT_EXACT]
+    missing = [f"{n} -> {k_}" for n, ks_ in JNP_PROVED.items() if n in reg
+               for k_ in re.findall(r"[a-z_0-9]+", ks_.split("(")[0]) if k_ not in kernel_names]
+    ctx.oblige(f"inventory:every-jax.numpy-plugin-is-proved-or-explicitly-not-exact({len(reg)} plugins, "
+               f"{sum(n in JNP_PROVED for n in reg)} proved)", not unclassified and not missing, "tie",
+               ("unclassified jax.numpy plugins (add a kernel or list them in JNP_NOT_EXACT with the reason): " + ", ".join(unclassified)
+                if unclassified else "") + ("; proved entries without a kernel: " + ", ".join(missing) if missing else ""))
+    ctx.coverage["c01k_jnp_plugins"] = {"registered": len(reg), "proved": sorted(n for n in reg if n in JNP_PROVED),
+                                        "explicitly_not_exact": len([n for n in reg if n in JNP_NOT_EXACT])}
+
+
 # ------------------------------------------------------------------------------------------------ the check
 PROP = "C01"          # findings of this sub-check are findings of property C01
 
@@ -1452,6 +1547,7 @@ def run(ctx):
     t_ = _time.time()
 
     ks = _kernels()
+    jnp_inventory(ctx, {k.name for k in ks})
     variants = [Variant(k, dt) for k in ks for dt in k.dtypes]
     if tier == "quick":
         # the quick tier keeps every kernel and every dtype family but drops some redundant width variants
@@ -1660,7 +1756,8 @@ def run(ctx):
 
     # ---- tie S (finish)
     n_s = 0
-    for v in live:
+    tie_live = [v for v in live if v.status != "onnx-type-invalid"]      # an invalid model is a finding, its structure is moot
+    for v in tie_live:
         if v.term is None:
             ctx.oblige(f"tieS:{v.id}", False, "tie", f"kernel structure not recognised: {v.k.name} ({v.term_err}); nodes: {structure(v.model)}")
         elif results[v.s_job] is not True:
@@ -1669,10 +1766,10 @@ def run(ctx):
                        f"which is not convertible to {' / '.join(lowered_alternatives(v.k, v.dt))}")
         else:
             n_s += 1
-    ctx.oblige(f"tieS:exported-structure-convertible-to-lowered_k({n_s}/{len(live)} kernel x dtype variants)",
-               n_s == len(live), "tie", "" if n_s == len(live) else "see the tieS:<kernel>:<dtype> obligations")
+    ctx.oblige(f"tieS:exported-structure-convertible-to-lowered_k({n_s}/{len(tie_live)} kernel x dtype variants)",
+               n_s == len(tie_live), "tie", "" if n_s == len(tie_live) else "see the tieS:<kernel>:<dtype> obligations")
     n_sd = n_sd_all = 0
-    for v in live:
+    for v in tie_live:
         if v.term is None or deep_name(v.k, v.dt) is None:
             continue
         n_sd_all += 1
